@@ -298,27 +298,28 @@ Definition maybe_attach (s_meta s_attach : site) (r : req) : flow bool :=
   | _, _ => Go false
   end.
 
+(* row count, as_py of every column, then the finally clause (release of a resolved shm region) *)
+Definition step_after (r : req) (cols : list (option exc)) (rows : N) (released : bool) : flow unit :=
+  let fin (x : flow unit) : flow unit :=
+    if released then match q_release r with Some e => Raise SRelease e | None => x end else x in
+  if nonempty cols && negb (rows =? 1) then fin (Raise SRows XRpcError)
+  else match first_some cols with
+       | Some e => fin (Raise SAsPy e)
+       | None => fin (Go tt)
+       end.
+
 (* steps 6-7: shared-memory pointer resolution, row count, as_py, release *)
 Definition step_shm (st : conn_state) (r : req) (cols : list (option exc)) (rows : N) : flow unit :=
   let have := c_static_shm cfg || (match st with Some _ => c_in_loop cfg | None => false end) in
   match (if negb have && is_shm_pointer rows r then maybe_attach SRrShmMeta SRrAttach r else Go false) with
   | Raise s e => Raise s e
   | Go attached =>
-      let seg := have || attached in
-      let after (cols : list (option exc)) (rows : N) (released : bool) : flow unit :=
-        let fin (x : flow unit) : flow unit :=
-          if released then match q_release r with Some e => Raise SRelease e | None => x end else x in
-        if nonempty cols && negb (rows =? 1) then fin (Raise SRows XRpcError)
-        else match first_some cols with
-             | Some e => fin (Raise SAsPy e)
-             | None => fin (Go tt)
-             end in
-      if seg && is_shm_pointer rows r then
+      if (have || attached) && is_shm_pointer rows r then
         match q_shmres r with
         | RRaises e => Raise SResolveShm e
-        | RBatch cols' rows' => after cols' rows' true
+        | RBatch cols' rows' => step_after r cols' rows' true
         end
-      else after cols rows false
+      else step_after r cols rows false
   end.
 
 Definition read_request (st : conn_state) (r : req) : flow (list N) :=
